@@ -99,6 +99,42 @@ CLAIMS['C11'] = dict(
   note='Not decided: overflow/underflow, LAPACK finiteness, NaN from user data. Accepted denominators are an explicit table '
        '(dense convenience path of accuracy). Grid sizes n_k >= 2 assumed for the Chebyshev routines.')
 
+CLAIMS['C02'] = dict(
+  technique='orthogonality typestate (abstract interpretation with qr/rq/svd/eigh axioms) + unit/homogeneity facet + constant-folded rank formula + forwarding rules',
+  text='Decides the structural part only: in the right-to-left sweep of truncate the factor kept in each finished core has '
+       'orthonormal rows and the weights travel left, in eigen and SVD mode (the rule that found the SVD-mode defect); the three '
+       'm-vs-n selectors of matrix_svd agree on every ordering; pivot, norm core and sweep start coincide; tail energies (sigma^2) '
+       'are compared with e^2 in one unit with e rescaled by the norm; rank = max(1, min(cap, len - dropped)) on a bounded grid '
+       'and the droppable tail is the longest with energy <= e^2; e and r reach every factorisation call and the final rounding '
+       'of add_many; results are well formed with the input mode sizes.',
+  note='Not decided: the inequality ||Y-Z|| <= e||Y||, quasi-optimal ranks as values, behaviour exactly at a threshold, rounding. '
+       'Trusted: orthogonality axioms of LAPACK-backed factorizations.')
+CLAIMS['C03'] = dict(
+  technique='orthogonality typestate + factor summaries per give_to literal + unit facet + constant-folded rank formula + shape typing',
+  text='Decides the structural part only: every finished core of TT-SVD has orthonormal columns and the weights travel with the '
+       'remainder (the rule that found the scale-dependent defect); matrix_skeleton returns (weighted, rows)/(cols, weighted)/'
+       '(half, half) for give_to l/r/m and matrix_svd an orthonormal-row right factor on both Gram sides; selectors agree; '
+       'threshold units; rank formula; unfolding reshapes of svd / svd_matrix / full_matrix consistent; results well formed.',
+  note='Not decided: the error bound numerically, exact-rank reproduction, best-approximation property of the factor product. '
+       'The interleaving permutation tables are checked in the thorough tier only (bounded q).')
+CLAIMS['C04'] = dict(
+  technique='orthogonality typestate per pivot + shape typing + abstract rejection paths + in-place footprint (alias facet) + exponent ledger',
+  text='Decides the structural part only, for every pivot at d = 2,3: cores left of the pivot are reshaped reduced-QR Q factors '
+       '(orthonormal columns), right of it economic-RQ Q factors (orthonormal rows), the pivot carries the weights and the '
+       'triangular factor is multiplied into the neighbour on its own bond; no bond grows; results well formed; out-of-range '
+       'pivots/modes raise ValueError and in-range ones do not (abstract execution of the guards for every literal index); the '
+       'in-place variants store exactly two adjacent cores, the default ones none; with use_stab the exponent ledger closes and '
+       'every sweep step rescales.',
+  note='Not decided: orthonormality to rounding, entries of moderate magnitude.')
+CLAIMS['C16'] = dict(
+  technique='power-of-two exponent ledger as identities of linear forms over symbolic exponents (abstract interpretation)',
+  text='Decides: on every return path of core_stab, mul_scalar, norm, accuracy, orthogonalize (every pivot), truncate and '
+       'optima_tt_beam in their stabilised modes (d = 2,3) the scale of the returned mantissas plus the returned exponent equals '
+       'the scale of the input, exactly, as linear forms in the fresh exponent symbols; log2 is guarded by the threshold test; '
+       'the exponent is an integer; 2**(p1-p2) is dominated by both saturation guards; orthogonalize rescales at every step.',
+  note='Not decided: that mantissas stay in range for thousands of dimensions, rounding, coincidence of stabilised and plain '
+       'values. Ledger axioms for qr/rq/svd/eigh are trusted.')
+
 _PENDING = 'check not built yet in this session (see DESIGN.md section 7 build order); not claimed'
 NOT_APPLICABLE = {p: _PENDING for p in
                   ['C01', 'C02', 'C03', 'C04', 'C05', 'C06', 'C07', 'C08', 'C11', 'C12', 'C13', 'C14',
